@@ -1,13 +1,436 @@
-//! C15 — stub (not built yet; not registered in MANIFEST.json).
-use super::*;
+//! C15 — protection password hashes verify per ECMA-376; no clear-text password.
+//!
+//! Projection compared (exactly what the statement names): after `set_password` /
+//! `set_workbook_password` / `set_revisions_password` the stored (algorithm name, salt,
+//! spin count, hash) reproduce under the ECMA-376 iteration for the same password and do
+//! not for another one; a second call stores a different salt; the raw-password getter is
+//! empty; the saved XML carries the same four values, no legacy `password` /
+//! `workbookPassword` / `revisionsPassword` attribute and not the clear text; the four
+//! values and the empty raw getter survive save + reload.  Not demanded: particular
+//! algorithm, salt length or spin count (any the reference implements is accepted).
+use super::Prop;
+use crate::engine::*;
+use crate::gen::password::{password, pw_class, utf16_len, wrong_of};
+use crate::model::offcrypto as oc;
+use proptest::prelude::*;
+use serde::{Deserialize, Serialize};
+use std::io::Read;
+use umya_spreadsheet::Spreadsheet;
 
 pub fn prop() -> Prop {
     Prop {
         id: "C15",
-        describe: |_| {},
-        subs: no_subs,
-        extra: no_extra,
-        replay_extra: no_replay_extra,
-        watchdog_s: (900, 7200),
+        describe,
+        subs,
+        extra,
+        replay_extra: super::no_replay_extra,
+        watchdog_s: (900, 14400),
     }
+}
+
+fn describe(ctx: &Ctx) {
+    ctx.rule("(kind in sheet/workbook/revisions, password, wrong-password mode, legacy attribute present before the call, target sheet, writer flavour); every case is judged on the model, on the saved XML and after reload. Non-trivial = non-ASCII or >15-character password, or a legacy hash attribute present before the call; distinct by serialized case");
+    ctx.assume("reference = ecma_protection_hash in harness/src/model/offcrypto.rs (H0=H(salt||UTF-16LE(pw)), Hi=H(Hi-1||LE32(i))), cross-checked against Python hashlib in every run and against three Excel-written hashes of the corpus (sheet_lock.xlsx, book_lock.xlsx, password \"password\")");
+    ctx.assume("clear-text search is applied to passwords of >= 8 UTF-16 units or with a non-ASCII character that do not already occur in the same workbook saved without the password (shorter ones occur in any XML by chance); the legacy-attribute and raw-getter checks apply to every case");
+    ctx.assume("salt freshness is judged by inequality of the salts of two calls (false alarm probability 2^-128)");
+}
+
+#[derive(Debug, Clone, Serialize, Deserialize)]
+pub struct ProtCase {
+    /// 0 sheet, 1 workbook, 2 revisions
+    pub kind: u8,
+    pub password: String,
+    pub wrong_mode: u8,
+    /// a legacy 16-bit hash attribute is on the object before the call
+    pub legacy_before: bool,
+    pub extra_sheets: u8,
+    pub sheet_raw: u16,
+    /// set a lock flag as the documented examples do
+    pub flag: bool,
+    pub light: bool,
+}
+
+const KINDS: [&str; 3] = ["sheet", "workbook", "revisions"];
+const LEGACY_ATTR: [&str; 3] = ["password", "workbookPassword", "revisionsPassword"];
+const ATTRS: [[&str; 4]; 3] = [
+    ["algorithmName", "saltValue", "spinCount", "hashValue"],
+    ["workbookAlgorithmName", "workbookSaltValue", "workbookSpinCount", "workbookHashValue"],
+    ["revisionsAlgorithmName", "revisionsSaltValue", "revisionsSpinCount", "revisionsHashValue"],
+];
+
+#[derive(Debug, Clone, PartialEq, Eq)]
+struct Stored {
+    alg: String,
+    salt: String,
+    spin: u32,
+    hash: String,
+    raw: String,
+}
+
+fn stored(book: &Spreadsheet, kind: u8, si: usize) -> Option<Stored> {
+    match kind {
+        0 => book.get_sheet(&si)?.get_sheet_protection().map(|p| Stored {
+            alg: p.get_algorithm_name().to_string(),
+            salt: p.get_salt_value().to_string(),
+            spin: *p.get_spin_count(),
+            hash: p.get_hash_value().to_string(),
+            raw: p.get_password_raw().to_string(),
+        }),
+        1 => book.get_workbook_protection().map(|p| Stored {
+            alg: p.get_workbook_algorithm_name().to_string(),
+            salt: p.get_workbook_salt_value().to_string(),
+            spin: *p.get_workbook_spin_count(),
+            hash: p.get_workbook_hash_value().to_string(),
+            raw: p.get_workbook_password_raw().to_string(),
+        }),
+        _ => book.get_workbook_protection().map(|p| Stored {
+            alg: p.get_revisions_algorithm_name().to_string(),
+            salt: p.get_revisions_salt_value().to_string(),
+            spin: *p.get_revisions_spin_count(),
+            hash: p.get_revisions_hash_value().to_string(),
+            raw: p.get_revisions_password_raw().to_string(),
+        }),
+    }
+}
+
+fn base_book(c: &ProtCase) -> (Spreadsheet, usize) {
+    let mut book = umya_spreadsheet::new_file();
+    for i in 0..c.extra_sheets {
+        book.new_sheet(format!("Extra{}", i + 1)).unwrap();
+    }
+    let si = pick_idx(c.sheet_raw, 1 + c.extra_sheets as usize);
+    book.get_sheet_mut(&0).unwrap().get_cell_mut("A1").set_value_string("content");
+    if c.legacy_before {
+        match c.kind {
+            0 => {
+                book.get_sheet_mut(&si).unwrap().get_sheet_protection_mut().set_password_raw("CC1A");
+            }
+            1 => {
+                book.get_workbook_protection_mut().set_workbook_password_raw("83AF");
+            }
+            _ => {
+                book.get_workbook_protection_mut().set_revisions_password_raw("DAA7");
+            }
+        }
+    }
+    (book, si)
+}
+
+fn set_pw(book: &mut Spreadsheet, c: &ProtCase, si: usize) {
+    match c.kind {
+        0 => {
+            let p = book.get_sheet_mut(&si).unwrap().get_sheet_protection_mut();
+            p.set_password(&c.password);
+            if c.flag {
+                p.set_sheet(true);
+            }
+        }
+        1 => {
+            let p = book.get_workbook_protection_mut();
+            p.set_workbook_password(&c.password);
+            if c.flag {
+                p.set_lock_structure(true);
+            }
+        }
+        _ => {
+            let p = book.get_workbook_protection_mut();
+            p.set_revisions_password(&c.password);
+            if c.flag {
+                p.set_lock_revision(true);
+            }
+        }
+    }
+}
+
+fn save(book: &Spreadsheet, light: bool) -> Result<Vec<u8>, String> {
+    let mut buf = std::io::Cursor::new(Vec::new());
+    let r = if light {
+        umya_spreadsheet::writer::xlsx::write_writer_light(book, &mut buf)
+    } else {
+        umya_spreadsheet::writer::xlsx::write_writer(book, &mut buf)
+    };
+    r.map_err(|e| format!("{:?}", e))?;
+    Ok(buf.into_inner())
+}
+
+fn unzip(bytes: &[u8]) -> Result<Vec<(String, Vec<u8>)>, String> {
+    let mut z = zip::ZipArchive::new(std::io::Cursor::new(bytes)).map_err(|e| e.to_string())?;
+    let mut out = Vec::new();
+    for i in 0..z.len() {
+        let mut f = z.by_index(i).map_err(|e| e.to_string())?;
+        let mut v = Vec::new();
+        f.read_to_end(&mut v).map_err(|e| e.to_string())?;
+        out.push((f.name().to_string(), v));
+    }
+    Ok(out)
+}
+
+fn contains(hay: &[u8], needle: &[u8]) -> bool {
+    !needle.is_empty() && hay.len() >= needle.len() && hay.windows(needle.len()).any(|w| w == needle)
+}
+
+fn xml_escaped(s: &str) -> String {
+    s.replace('&', "&amp;").replace('<', "&lt;").replace('>', "&gt;").replace('"', "&quot;").replace('\'', "&apos;")
+}
+
+/// The ways a clear-text password could sit in a part.
+fn clear_forms(pw: &str) -> Vec<Vec<u8>> {
+    let mut v = vec![pw.as_bytes().to_vec(), xml_escaped(pw).into_bytes(), oc::utf16le(pw)];
+    v.push(pw.replace('&', "&amp;").replace('<', "&lt;").replace('>', "&gt;").replace('"', "&quot;").into_bytes());
+    v.push(pw.replace('&', "&amp;").replace('<', "&lt;").into_bytes());
+    v.sort();
+    v.dedup();
+    v
+}
+
+fn find_clear(parts: &[(String, Vec<u8>)], pw: &str) -> Option<String> {
+    for (name, data) in parts {
+        for f in clear_forms(pw) {
+            if contains(data, &f) {
+                return Some(name.clone());
+            }
+        }
+    }
+    None
+}
+
+/// Attributes of the first `<tag ...>` in a part, parsed by the harness's own XML reader.
+fn element_attrs(part: &[u8], tag: &str) -> Result<Option<oc::XmlEl>, String> {
+    let text = std::str::from_utf8(part).map_err(|e| e.to_string())?;
+    let open = format!("<{}", tag);
+    let mut from = 0;
+    while let Some(p) = text[from..].find(&open) {
+        let start = from + p;
+        let after = text[start + open.len()..].chars().next();
+        if matches!(after, Some(c) if c.is_whitespace() || c == '/' || c == '>') {
+            let end = text[start..].find('>').ok_or("unterminated tag")? + start;
+            let mut frag = text[start..=end].to_string();
+            if !frag.ends_with("/>") {
+                frag.pop();
+                frag.push_str("/>");
+            }
+            return oc::parse_xml(&frag).map(Some);
+        }
+        from = start + open.len();
+    }
+    Ok(None)
+}
+
+fn prot_case(kind: u8) -> BoxedStrategy<ProtCase> {
+    (password(true), any::<u8>(), prop::bool::weighted(0.35), 0u8..3, any::<u16>(), any::<bool>(), prop::bool::weighted(0.25))
+        .prop_map(move |(password, wrong_mode, legacy_before, extra_sheets, sheet_raw, flag, light)| ProtCase {
+            kind,
+            password,
+            wrong_mode,
+            legacy_before,
+            extra_sheets,
+            sheet_raw,
+            flag,
+            light,
+        })
+        .boxed()
+}
+
+fn sheet_cases(_t: Tier) -> BoxedStrategy<ProtCase> {
+    prot_case(0)
+}
+fn workbook_cases(_t: Tier) -> BoxedStrategy<ProtCase> {
+    prot_case(1)
+}
+fn revisions_cases(_t: Tier) -> BoxedStrategy<ProtCase> {
+    prot_case(2)
+}
+
+/// The statement's core: the stored values verify the password and no other.
+fn verify_stored(kind: &str, s: &Stored, pw: &str, wrong: &str, stage: &str) -> Result<(), Verdict> {
+    let pwc = pw_class(pw);
+    let alg = oc::HashAlg::from_protection_name(&s.alg).ok_or_else(|| {
+        Verdict::fail(
+            format!("{}/algorithm-name", kind),
+            format!("{}: algorithm name {:?} is not an ECMA-376 hash algorithm name the reference implements (SHA-256/384/512)", stage, s.alg),
+        )
+    })?;
+    let salt = oc::b64_decode(&s.salt).map_err(|e| Verdict::fail(format!("{}/salt-not-base64", kind), format!("{}: salt {:?}: {}", stage, s.salt, e)))?;
+    let hash = oc::b64_decode(&s.hash).map_err(|e| Verdict::fail(format!("{}/hash-not-base64", kind), format!("{}: hash {:?}: {}", stage, s.hash, e)))?;
+    if salt.is_empty() {
+        return Err(Verdict::fail(format!("{}/salt-empty", kind), format!("{}: no salt stored", stage)));
+    }
+    let want = oc::ecma_protection_hash(alg, &salt, pw, s.spin);
+    if want != hash {
+        // diagnosis only
+        let mut why = String::new();
+        if oc::agile_iterated_hash(alg, &salt, pw, s.spin) == hash {
+            why = " (it is the file-encryption order H(LE32(i)||h))".into();
+        } else if s.spin > 0 && oc::ecma_protection_hash(alg, &salt, pw, s.spin - 1) == hash {
+            why = " (it is the hash after spinCount-1 iterations)".into();
+        } else if oc::ecma_protection_hash(alg, &salt, pw, s.spin.saturating_add(1)) == hash {
+            why = " (it is the hash after spinCount+1 iterations)".into();
+        }
+        return Err(Verdict::fail(
+            format!("{}/{}/hash-mismatch", kind, pwc),
+            format!(
+                "{}: stored hash {} is not the ECMA-376 hash {} of the password ({} UTF-16 units) under {} / salt {} / spin {}{}",
+                stage,
+                s.hash,
+                oc::b64_encode(&want),
+                utf16_len(pw),
+                s.alg,
+                s.salt,
+                s.spin,
+                why
+            ),
+        ));
+    }
+    if oc::ecma_protection_hash(alg, &salt, wrong, s.spin) == hash {
+        return Err(Verdict::fail(
+            format!("{}/{}/other-password-verifies", kind, pwc),
+            format!("{}: the stored hash of {:?} also verifies {:?}", stage, pw, wrong),
+        ));
+    }
+    Ok(())
+}
+
+fn check_prot(c: &ProtCase, obs: &mut Obs) -> Verdict {
+    let kind = KINDS[c.kind as usize % 3];
+    let k = c.kind as usize % 3;
+    obs.class(pw_class(&c.password));
+    if c.legacy_before {
+        obs.class("legacy-attribute-before");
+    }
+    obs.nontrivial(!c.password.is_ascii() || c.password.chars().count() > 15 || c.legacy_before);
+    let wrong = wrong_of(&c.password, c.wrong_mode);
+
+    // baseline: the same workbook without the password (for the clear-text search)
+    let distinctive = utf16_len(&c.password) >= 8 || !c.password.is_ascii();
+    let baseline_parts = if distinctive {
+        let base = guard(|| {
+            let mut cc = c.clone();
+            cc.legacy_before = false;
+            let (b, _) = base_book(&cc);
+            save(&b, c.light)
+        });
+        match base {
+            Ok(Ok(bytes)) => match unzip(&bytes) {
+                Ok(p) => Some(p),
+                Err(e) => return Verdict::Discard(format!("baseline save is not a zip: {}", e)),
+            },
+            Ok(Err(e)) => return Verdict::Discard(format!("baseline save failed: {}", e)),
+            Err(p) => return Verdict::Discard(format!("baseline save panicked: {}", p.short())),
+        }
+    } else {
+        None
+    };
+    let search_clear = match &baseline_parts {
+        Some(p) => find_clear(p, &c.password).is_none(),
+        None => false,
+    };
+    obs.class(if search_clear { "clear-text-searched" } else { "clear-text-search-skipped" });
+
+    // the calls under test: two calls, the second one is the state that is judged
+    let r = guard(|| {
+        let (mut book, si) = base_book(c);
+        set_pw(&mut book, c, si);
+        let first = stored(&book, c.kind, si);
+        set_pw(&mut book, c, si);
+        let second = stored(&book, c.kind, si);
+        (book, si, first, second)
+    });
+    let (book, si, first, second) = match r {
+        Ok(x) => x,
+        Err(p) => return Verdict::fail(format!("{}/panic:{}", kind, p.site()), format!("setting a {} password of {} UTF-16 units: {}", kind, utf16_len(&c.password), p.short())),
+    };
+    let (Some(first), Some(s)) = (first, second) else {
+        return Verdict::fail(format!("{}/no-protection-object", kind), "the protection object is absent after the password was set");
+    };
+    // before save
+    if let Err(v) = verify_stored(kind, &s, &c.password, &wrong, "model") {
+        return v;
+    }
+    if first.salt == s.salt {
+        return Verdict::fail(format!("{}/salt-reused", kind), format!("two calls stored the same salt {}", s.salt));
+    }
+    if !s.raw.is_empty() {
+        return Verdict::fail(
+            format!("{}/raw-password-in-model", kind),
+            format!("raw password getter returns {:?} after the hashed password was set{}", s.raw, if s.raw == c.password { " (the clear text)" } else { "" }),
+        );
+    }
+    // saved file
+    let bytes = match guard(|| save(&book, c.light)) {
+        Ok(Ok(b)) => b,
+        Ok(Err(e)) => return Verdict::fail(format!("{}/save-error", kind), e),
+        Err(p) => return Verdict::fail(format!("{}/save-panic:{}", kind, p.site()), p.short()),
+    };
+    let parts = match unzip(&bytes) {
+        Ok(p) => p,
+        Err(e) => return Verdict::fail(format!("{}/saved-not-a-zip", kind), e),
+    };
+    let (part_name, tag) = if k == 0 { (format!("xl/worksheets/sheet{}.xml", si + 1), "sheetProtection") } else { ("xl/workbook.xml".to_string(), "workbookProtection") };
+    let Some((_, part)) = parts.iter().find(|(n, _)| *n == part_name) else {
+        return Verdict::Discard(format!("part {} not in the saved package", part_name));
+    };
+    let el = match element_attrs(part, tag) {
+        Ok(Some(e)) => e,
+        Ok(None) => return Verdict::fail(format!("{}/saved-element-missing", kind), format!("no <{}> in {}", tag, part_name)),
+        Err(e) => return Verdict::Discard(format!("cannot parse <{}> of {}: {}", tag, part_name, e)),
+    };
+    if let Some(v) = el.attr(LEGACY_ATTR[k]) {
+        return Verdict::fail(
+            format!("{}/legacy-attribute-saved", kind),
+            format!("<{}> in {} carries {}={:?} next to the hashed password{}", tag, part_name, LEGACY_ATTR[k], v, if v == c.password { " (the clear text)" } else { "" }),
+        );
+    }
+    let spin_s = s.spin.to_string();
+    let wants = [&s.alg, &s.salt, &spin_s, &s.hash];
+    for (name, want) in ATTRS[k].iter().zip(wants.iter()) {
+        if el.attr(name) != Some(want.as_str()) {
+            return Verdict::fail(
+                format!("{}/saved-field-differs", kind),
+                format!("<{}> {}={:?} in the file, the model has {:?}", tag, name, el.attr(name), want),
+            );
+        }
+    }
+    if search_clear {
+        if let Some(p) = find_clear(&parts, &c.password) {
+            return Verdict::fail(format!("{}/clear-text-in-file", kind), format!("the password {:?} occurs in {}", c.password, p));
+        }
+    }
+    // reload
+    let back = match guard(|| umya_spreadsheet::reader::xlsx::read_reader(std::io::Cursor::new(bytes.clone()), true)) {
+        Ok(Ok(b)) => b,
+        Ok(Err(e)) => return Verdict::fail(format!("{}/reload-error", kind), format!("{:?}", e)),
+        Err(p) => return Verdict::fail(format!("{}/reload-panic:{}", kind, p.site()), p.short()),
+    };
+    let after = match guard(|| stored(&back, c.kind, si)) {
+        Ok(Some(a)) => a,
+        Ok(None) => return Verdict::fail(format!("{}/lost-on-reload", kind), "the protection object is absent after save and reload"),
+        Err(p) => return Verdict::fail(format!("{}/reload-panic:{}", kind, p.site()), p.short()),
+    };
+    if after != s {
+        let what = if after.alg != s.alg {
+            "algorithm-name"
+        } else if after.salt != s.salt {
+            "salt"
+        } else if after.spin != s.spin {
+            "spin-count"
+        } else if after.hash != s.hash {
+            "hash"
+        } else {
+            "raw-password"
+        };
+        return Verdict::fail(format!("{}/reload-changes-{}", kind, what), format!("before {:?}, after reload {:?}", s, after));
+    }
+    Verdict::Pass
+}
+
+fn subs() -> Vec<Box<dyn DynSub>> {
+    vec![
+        Box::new(Sub { name: "sheet", strategy: sheet_cases, cases: (20, 300), check: check_prot, max_shrink_iters: 32 }),
+        Box::new(Sub { name: "workbook", strategy: workbook_cases, cases: (20, 300), check: check_prot, max_shrink_iters: 32 }),
+        Box::new(Sub { name: "revisions", strategy: revisions_cases, cases: (20, 300), check: check_prot, max_shrink_iters: 32 }),
+    ]
+}
+
+fn extra(ctx: &Ctx) {
+    super::c14::run_selftests(ctx);
 }
